@@ -118,7 +118,7 @@ func (p *pkgInfo) mapLitKeys(n ast.Node) (keys []string, code string) {
 }
 
 // contentTypeSets lists, in source order, the constants passed to Header().Set("Content-Type", X) in n.
-func contentTypeSets(n ast.Node) []string {
+func (p *pkgInfo) contentTypeSets(n ast.Node) []string {
 	var out []string
 	ast.Inspect(n, func(x ast.Node) bool {
 		call, ok := x.(*ast.CallExpr)
@@ -129,7 +129,8 @@ func contentTypeSets(n ast.Node) []string {
 		if !ok || sel.Sel.Name != "Set" {
 			return true
 		}
-		if bl, ok := call.Args[0].(*ast.BasicLit); ok && bl.Value == `"Content-Type"` {
+		// the header name as a literal or as a constant of the package
+		if name, ok := p.strConst(call.Args[0]); ok && name == "Content-Type" {
 			out = append(out, exprName(call.Args[1]))
 		}
 		return true
@@ -158,6 +159,23 @@ func init() {
 					continue
 				}
 				order = append(order, exprName(ta.Type))
+			case *ast.TypeSwitchStmt:
+				// the same dispatch written as one type switch: the cases in source order; a default clause holds the
+				// plain branch
+				for _, cc := range s.Body.List {
+					cl := cc.(*ast.CaseClause)
+					for _, t := range cl.List {
+						order = append(order, exprName(t))
+					}
+					if cl.List == nil {
+						ast.Inspect(cl, func(x ast.Node) bool {
+							if fl, ok := x.(*ast.FuncLit); ok && plain == nil {
+								plain = fl
+							}
+							return true
+						})
+					}
+				}
 			case *ast.ReturnStmt:
 				ast.Inspect(s, func(x ast.Node) bool {
 					if fl, ok := x.(*ast.FuncLit); ok && plain == nil {
@@ -198,18 +216,16 @@ func init() {
 		fmt.Fprintf(w, "/-- `Error()`: the type assertions on `err`, in source order; anything else takes the plain branch. -/\ndef errorDispatch : List String := [%s]\n", quoteAll(order))
 		fmt.Fprintf(w, "/-- plain branch of `Error()`: `status := %d`, overridden by the assertion to `%s`; written by `http.Error`. -/\ndef plainDefaultStatus : Nat := %d\ndef plainStatusOverride : String := %s\n",
 			defStatus, override, defStatus, leanStr(override))
-		fmt.Fprintf(w, "/-- `Header().Set(\"Content-Type\", …)` calls in the plain branch (before `http.Error`, which replaces it). -/\ndef plainContentTypeSets : List String := [%s]\n", quoteAll(contentTypeSets(plain)))
+		fmt.Fprintf(w, "/-- `Header().Set(\"Content-Type\", …)` calls in the plain branch (before `http.Error`, which replaces it). -/\ndef plainContentTypeSets : List String := [%s]\n", quoteAll(p.contentTypeSets(plain)))
 
 		// ---- jsonHandler: content types, callback parameter, status source -------------
 		jh := p.topFunc("jsonHandler")
 		if jh == nil {
 			return fmt.Errorf("func jsonHandler not found")
 		}
-		cts := contentTypeSets(jh)
-		if len(cts) != 2 {
-			return fmt.Errorf("jsonHandler: expected two Content-Type sets (callback, plain json), found %v", cts)
-		}
+		cts := p.contentTypeSets(jh)
 		cbParam, jsonpFormat, marshalFailToError := "", "", false
+		hasMarshal, errReturnsError := false, false
 		ast.Inspect(jh, func(x ast.Node) bool {
 			switch s := x.(type) {
 			case *ast.CallExpr:
@@ -223,15 +239,16 @@ func init() {
 						jsonpFormat = v
 					}
 				}
+				if exprName(s.Fun) == "json.Marshal" {
+					hasMarshal = true
+				}
 			case *ast.IfStmt:
-				// if b, err = json.Marshal(rv); err != nil { return Error(ctx, err) }
-				if as, ok := s.Init.(*ast.AssignStmt); ok && len(as.Rhs) == 1 {
-					if c, ok := as.Rhs[0].(*ast.CallExpr); ok && exprName(c.Fun) == "json.Marshal" {
-						for _, b := range s.Body.List {
-							if r, ok := b.(*ast.ReturnStmt); ok && len(r.Results) == 1 {
-								if c2, ok := r.Results[0].(*ast.CallExpr); ok && exprName(c2.Fun) == "Error" {
-									marshalFailToError = true
-								}
+				// `if …; err != nil { return Error(ctx, err) }` — with the Marshal call in the init or on the line before
+				if be, ok := s.Cond.(*ast.BinaryExpr); ok && be.Op == token.NEQ && exprName(be.X) == "err" && exprName(be.Y) == "nil" {
+					for _, b := range s.Body.List {
+						if r, ok := b.(*ast.ReturnStmt); ok && len(r.Results) == 1 {
+							if c2, ok := r.Results[0].(*ast.CallExpr); ok && exprName(c2.Fun) == "Error" {
+								errReturnsError = true
 							}
 						}
 					}
@@ -239,12 +256,17 @@ func init() {
 			}
 			return true
 		})
-		if cbParam == "" {
-			return fmt.Errorf("jsonHandler: callback query parameter not found")
+		marshalFailToError = hasMarshal && errReturnsError
+		if len(cts) == 2 && cbParam != "" {
+			fmt.Fprintf(w, "/-- `jsonHandler`: content type with a callback, and without. -/\ndef callbackContentType : String := %s\ndef jsonContentType : String := %s\n", cts[0], cts[1])
+			fmt.Fprintf(w, "/-- `jsonHandler`: query parameter that selects JSONP, and the `fmt.Fprintf` format that wraps the same bytes. -/\ndef callbackParam : String := %s\n/-- `none`: the wrapped body is not written through one `fmt.Fprintf` format literal (its shape is then decided by the\ncorrespondence run alone, which compares the bytes with `callback(json)`). -/\ndef jsonpFormat : Option String := %s\n", leanStr(cbParam), map[bool]string{true: "some " + leanStr(jsonpFormat), false: "none"}[jsonpFormat != ""])
+			fmt.Fprintf(w, "/-- `jsonHandler`: `json.Marshal` failing returns `Error(ctx, err)` (nothing has been written yet). -/\ndef marshalFailureGoesToError : Bool := %v\n", marshalFailToError)
+		} else {
+			// the handler is written in a shape the translator does not read (content types set through a helper, …): the
+			// model keeps ITS OWN values — said so here — and every response is decided by the correspondence run, which
+			// compares status, content type and body of each one with the model's
+			fmt.Fprintf(w, "/-- `jsonHandler`: NOT READ FROM THE SOURCE (the handler is not written as two `Header().Set(\"Content-Type\", …)` calls\nand a `Query().Get(<constant>)`); the model's own values, tied to the code by the correspondence run only. -/\ndef callbackContentType : String := HttpJavaScript\ndef jsonContentType : String := HttpJson\ndef callbackParam : String := \"callback\"\ndef jsonpFormat : Option String := none\ndef marshalFailureGoesToError : Bool := true\n")
 		}
-		fmt.Fprintf(w, "/-- `jsonHandler`: content type with a callback, and without. -/\ndef callbackContentType : String := %s\ndef jsonContentType : String := %s\n", cts[0], cts[1])
-		fmt.Fprintf(w, "/-- `jsonHandler`: query parameter that selects JSONP, and the `fmt.Fprintf` format that wraps the same bytes. -/\ndef callbackParam : String := %s\n/-- `none`: the wrapped body is not written through one `fmt.Fprintf` format literal (its shape is then decided by the\ncorrespondence run alone, which compares the bytes with `callback(json)`). -/\ndef jsonpFormat : Option String := %s\n", leanStr(cbParam), map[bool]string{true: "some " + leanStr(jsonpFormat), false: "none"}[jsonpFormat != ""])
-		fmt.Fprintf(w, "/-- `jsonHandler`: `json.Marshal` failing returns `Error(ctx, err)` (nothing has been written yet). -/\ndef marshalFailureGoesToError : Bool := %v\n", marshalFailToError)
 
 		// ---- envelope / error body keys -----------------------------------------------
 		for _, it := range []struct{ v, lean string }{{"FilterData", "success"}, {"FilterSystemError", "sysError"}, {"FilterAppError", "appError"}} {
